@@ -434,9 +434,15 @@ def run(ctx):
     rule_rates(ctx)
     rule_call(ctx)
     rule_defaults(ctx)
+    from ..report import SubCtx
+    from . import c20 as c20m
+    subm = SubCtx(ctx, 'C04.defaults', 'defaults, annotations and widths are read from the graph function at every build: nothing on the build path is memoised per function object, as decided for C20')
+    c20m.rule_memo(subm)
 
 
 MUTANTS = [
+    dict(rule='C04.defaults', name='signature of the graph function memoised per function object (seed C04-j)', file='sc3/synth/synthdef.py',
+         old="class MetaSynthDef(type):\n", new="import functools\n\n\n@functools.lru_cache(maxsize=1024)\ndef _signature(func):\n    return inspect.signature(func)\n\n\nclass MetaSynthDef(type):\n"),
     dict(rule='C04.ctl', name='a failed wrapped function resets the running index but keeps its control units (seed C04-i)', file='sc3/synth/synthdef.py',
          old="        self._args_to_controls(func, rates, len(prepend))\n        result = func(*(prepend + self._build_controls()))\n        self._control_names = save_ctl_names\n",
          new="        save_ctl_index = self._control_index\n        try:\n            self._args_to_controls(func, rates, len(prepend))\n            result = func(*(prepend + self._build_controls()))\n        except Exception:\n            self._control_index = save_ctl_index\n            raise\n        finally:\n            self._control_names = save_ctl_names\n"),
